@@ -202,6 +202,7 @@ func (o *functionOperator) Next(ctx context.Context) ([]model.StepVector, error)
 			continue
 		}
 
+		kept := 0
 		for i := range vector.Samples {
 			o.pointBuf[0].V = vector.Samples[i]
 			// Call function by separately passing major input and scalars.
@@ -211,9 +212,17 @@ func (o *functionOperator) Next(ctx context.Context) ([]model.StepVector, error)
 				StepTime:     vector.T,
 				ScalarPoints: o.scalarPoints[batchIndex],
 			})
+			// Functions signal that a sample has to be dropped, e.g. clamp with max < min.
+			if result.Point == InvalidSample.Point {
+				continue
+			}
 
-			vector.Samples[i] = result.V
+			vector.Samples[kept] = result.V
+			vector.SampleIDs[kept] = vector.SampleIDs[i]
+			kept++
 		}
+		vectors[batchIndex].Samples = vector.Samples[:kept]
+		vectors[batchIndex].SampleIDs = vector.SampleIDs[:kept]
 	}
 
 	return vectors, nil
